@@ -335,7 +335,6 @@ pub fn matching_parse_opts(rng: &mut Rng, popts: u32) -> u32 {
 pub struct DatumGen<'a> {
     pub rng: &'a mut Rng,
     pub f: ParseFields,
-    pub allow_raw_invalid: bool,
 }
 
 /// Character names: the ones the parser accepts today and the ones other
@@ -658,7 +657,7 @@ pub fn gen_datum_text(rng: &mut Rng, opts_ix: u32) -> Vec<u8> {
     let depth = rng.below(4) as u32;
     let lead = rng.chance(1, 6);
     let trail = rng.chance(1, 6);
-    let mut g = DatumGen { rng, f: opts::parse_fields(opts_ix), allow_raw_invalid: false };
+    let mut g = DatumGen { rng, f: opts::parse_fields(opts_ix) };
     if lead {
         g.ws(&mut out, true);
     }
